@@ -14,11 +14,11 @@ theorem use_of_not_fatal {p : Pool} (h : p.fatal = false) (u : Use) :
   unfold ClonePool.use; simp only [h, Bool.false_eq_true, if_false]; cases u <;> rfl
 
 theorem finAll_tr {p : Pool} (h : p.fatal = false) :
-    (ClonePool.use p .finAll).tr = p.tr ++ (droppedEvs p.pf ++ finEvs .af (afOut p)) := by
-  rw [use_of_not_fatal h]; simp [xAF, afState, List.append_assoc]
+    (ClonePool.use p .finAll).tr = p.tr ++ finEvs .af (afOut p) := by
+  rw [use_of_not_fatal h]; simp [xAF, afState]
 
 theorem popRel_tr {p : Pool} (h : p.fatal = false) :
-    (ClonePool.use p .popRel).tr = p.tr ++ (skipEvs p.pf ++ skipEvs (afOut p) ++ relEvs .ar (arOut (skipAF p))) := by
+    (ClonePool.use p .popRel).tr = p.tr ++ (skipEvs (afOut p) ++ relEvs .ar (arOut (skipAF p))) := by
   rw [use_of_not_fatal h]; simp [xAR, skipAF, afState, List.append_assoc]
 
 theorem delta_of_append {p p' : Pool} {ext : List TEv} (h : p'.tr = p.tr ++ ext) : delta p p' = ext := by
@@ -37,10 +37,17 @@ theorem relOrders_filter_log (l : List TEv) : relOrders (l.filter isLogEv) = rel
 /-- every entry still owed a finaliser is handed out by `finAll` -/
 theorem finAll_covers {p : Pool} (h : p.fatal = false) {e : Entry} (he : e ∈ regL p) (hf : e.fin = false) :
     e.order ∈ finOrders (ClonePool.use p .finAll).tr := by
-  rw [finAll_tr h, finOrders_append, finOrders_append, finOrders_droppedEvs, finOrders_finEvs, afOut_eq]
+  rw [finAll_tr h, finOrders_append, finOrders_finEvs, afOut_eq]
   apply List.mem_append_right
-  simp only [List.nil_append]
-  exact mem_ords_sortDesc.mpr (mem_ords.mpr ⟨e, List.mem_filter.mpr ⟨he, by simpa using hf⟩, rfl⟩)
+  exact mem_ords_sortDesc.mpr (mem_ords.mpr ⟨e, List.mem_append_right _ (List.mem_filter.mpr ⟨he, by simpa using hf⟩), rfl⟩)
+
+/-- … and so is everything already queued in `pendingFinalize` -/
+theorem finAll_covers_pending {p : Pool} (h : p.fatal = false) {n : Nat} (hn : n ∈ ords p.pf) :
+    n ∈ finOrders (ClonePool.use p .finAll).tr := by
+  rw [finAll_tr h, finOrders_append, finOrders_finEvs, afOut_eq]
+  apply List.mem_append_right
+  obtain ⟨e, he, heo⟩ := mem_ords.mp hn
+  exact mem_ords_sortDesc.mpr (mem_ords.mpr ⟨e, List.mem_append_left _ he, heo⟩)
 
 theorem regL_skipAF (p : Pool) : regL (skipAF p) = setFinAll (regL p) := regL_afState p
 
@@ -48,7 +55,7 @@ theorem regL_skipAF (p : Pool) : regL (skipAF p) = setFinAll (regL p) := regL_af
 theorem popRel_covers {p : Pool} (h : p.fatal = false) {n : Nat}
     (hn : (∃ e ∈ regL p, e.rel = false ∧ e.order = n) ∨ n ∈ ords p.pr) :
     n ∈ relOrders (ClonePool.use p .popRel).tr := by
-  rw [popRel_tr h, relOrders_append, relOrders_append, relOrders_append, relOrders_skipEvs, relOrders_skipEvs,
+  rw [popRel_tr h, relOrders_append, relOrders_append, relOrders_skipEvs,
     relOrders_relEvs, arOut_eq]
   apply List.mem_append_right
   simp only [List.nil_append]
@@ -66,8 +73,7 @@ theorem popRel_covers {p : Pool} (h : p.fatal = false) {n : Nat}
 /-- `popRel` hands nothing to a finaliser -/
 theorem popRel_no_fin {p : Pool} : finOrders (ClonePool.use p .popRel).tr = finOrders p.tr := by
   by_cases h : p.fatal = false
-  · rw [popRel_tr h, finOrders_append, finOrders_append, finOrders_append, finOrders_skipEvs, finOrders_skipEvs,
-      finOrders_relEvs]; simp
+  · rw [popRel_tr h, finOrders_append, finOrders_append, finOrders_skipEvs, finOrders_relEvs]; simp
   · unfold ClonePool.use; simp at h; simp [h]
 
 end GoluaVerif.Proofs.C18
